@@ -1,6 +1,7 @@
 //! C05 / C08 / C14 — retry layer, retry budgets, backoff functions.
 
 mod c05;
+mod c05_threads;
 mod c08;
 mod c14;
 
@@ -20,6 +21,23 @@ fn main() {
         "C05" => {
             if let Some(p) = cli.replay {
                 let v = trv_core::load_replay(&p);
+                if let Some(ch) = v["history"]["thread_schedule"].as_array() {
+                    let choices: Vec<usize> = ch.iter().filter_map(|x| x.as_u64().map(|u| u as usize)).collect();
+                    match c05_threads::replay(v["config"].as_str().unwrap_or(""), &choices, v["kind"].as_str().unwrap_or("")) {
+                        Some(true) => {
+                            println!("VIOLATION property=C05 replay={p}");
+                            std::process::exit(1);
+                        }
+                        Some(false) => {
+                            println!("replay: the recorded violation does not occur on the current tree");
+                            std::process::exit(0);
+                        }
+                        None => {
+                            eprintln!("MACHINERY no thread configuration with that label");
+                            std::process::exit(2);
+                        }
+                    }
+                }
                 if v["config"].as_str().unwrap_or("").starts_with("shared-budget") {
                     let mut c = c05::shared_configs(Tier::Quick);
                     c.extend(c05::shared_configs(Tier::Thorough));
@@ -50,6 +68,11 @@ fn main() {
                     svcx::validate_abstraction(&cfg, 6, &ex.fingerprints, ex.depth_completed, &mut rep);
                 }
             }
+            // thread level: whole requests sharing one budget on OS threads (engine B)
+            c05_threads::run(tier, &mut rep);
+            rep.assumptions.push("thread level (engine B): scheduling points are the atomic steps of the shared retry budget (repo feature verif-hooks); sequentially consistent memory; inner service fails every call, zero backoff".into());
+            rep.require_witness("retry_granted_on_a_thread");
+            rep.require_witness("retry_refused_on_a_thread");
             trv_core::finish(rep);
         }
         "C08" => {
